@@ -515,6 +515,50 @@ def bank_stream(chk, R, rng, n):
 BUDGETS = list(range(1, 17)) + [30]
 
 
+def is_budget_coupling(R, text, s, m, row, bad):
+    """finding class asm_block_budget_coupling (F78), decided, not assumed:
+      1. success at the smaller budget and a DIFFERENT success at the larger one (not a failure, not a pass-count excess);
+      2. over the whole sweep no result comes back after a different one (each distinct result occupies one run of
+         budgets, the sweep ends in agreement at 16 and 30): the result changes at thresholds, it does not alternate;
+      3. the cause is there: the program's asm block ALONE (`#addr A` / `blk`, every address A the program can reach)
+         fails to settle with the last budget that still gave the old result but settles with the first budget that gave
+         the new one, at some address A - i.e. with the smaller budget some pass may get Unknown where the larger budget
+         gets the block's value.
+    Anything else (in particular an alternation by budget parity, which is what a leaked estimate produces) stays a
+    violation."""
+    small, large = bad[1], bad[2]
+    js, jl = BUDGETS.index(small), BUDGETS.index(large)
+    if small == large or row[jl][0] != "OK":
+        return False
+    sigs = [asm_streams.sig(c) for c in row]
+    seen, prev = [], None
+    for j in range(js, len(row)):
+        if row[j][0] != "OK":
+            return False                         # success is never lost again
+        if sigs[j] != prev:
+            if sigs[j] in seen:
+                return False                     # a result came back: alternation
+            seen.append(sigs[j]); prev = sigs[j]
+    if sigs[-1] != sigs[-2]:
+        return False
+    # every change point must have its slow address
+    cut = text.index("\n}\n") + 3
+    rules = text[:cut]
+    if "blk => asm" not in rules:
+        return False
+    nbytes = max(len(c[1]) for c in row if c[0] == "OK") // 8 + 8
+    for j in range(js + 1, len(row)):
+        if sigs[j] == sigs[j - 1]:
+            continue
+        before, after = BUDGETS[j - 1], BUDGETS[j]
+        alone = [rules + "#addr 0x%x\nblk\n" % a for a in range(nbytes)]
+        ra = R.impl([(p_, before, s, m) for p_ in alone])
+        rb = R.impl([(p_, after, s, m) for p_ in alone])
+        if not any(x.startswith("ERR") and y.startswith("OK") for x, y in zip(ra, rb)):
+            return False
+    return True
+
+
 def budget_stream(chk, quick=True, R=None, rng=None):
     """C09 on programs with asm blocks (callable from tools/props/c09.py): every program is assembled with every budget of
     1..16 and 30 under one switch setting; success at N demands the identical bits and symbol values at every larger
@@ -569,7 +613,7 @@ def budget_stream(chk, quick=True, R=None, rng=None):
                 bad = ("assembles with budget %d but %s with the larger budget %d" % (
                     BUDGETS[first], "fails" if row[j][0] != "OK" else "gives different bits or symbols", BUDGETS[j]), BUDGETS[first], BUDGETS[j])
                 break
-        if bad and fam == "slow-block" and coupling and row[BUDGETS.index(bad[2])][0] == "OK" and bad[1] != bad[2]:
+        if bad and fam == "slow-block" and coupling and is_budget_coupling(R, t, s, m, row, bad):
             chk.known(coupling, "slowly settling asm block: assembles with budget %d, different bits with budget %d" % (bad[1], bad[2]))
             dist["known_" + coupling] = dist.get("known_" + coupling, 0) + 1
         elif bad:
